@@ -7,6 +7,7 @@ import Mathlib.Tactic.LinearCombination
 import Mathlib.Tactic.Positivity
 import Mathlib.Tactic.Linarith
 import Mathlib.Tactic.NormNum
+import Mathlib.Analysis.SpecialFunctions.Trigonometric.Basic
 /-!
 # C17  Fresnel coefficients conserve energy; polarization elements obey their algebra
 
@@ -727,5 +728,444 @@ theorem diattenuator_rotation_covariant_partial (tmin tmax t : ℝ) :
   simp only [Real.cos_neg, Real.sin_neg, Cx.mk.injEq]
   refine ⟨⟨?_, ?_⟩, ⟨?_, ?_⟩, trivial, ?_⟩
   all_goals ring1
+
+/-! ## 5. round 8: rotation law and its sign, relative index, state normalisation, launch intensity -/
+
+/-! ### (a) rotation law -/
+
+theorem rotated_zero (j : J2 (Cx ℝ)) : rotated j 0 = j := by
+  obtain ⟨⟨a1, a2⟩, ⟨b1, b2⟩, ⟨c1, c2⟩, ⟨d1, d2⟩⟩ := j
+  unfold rotated rot jmul Cx.add Cx.mul
+  num_real
+  simp only [neg_zero, Real.cos_zero, Real.sin_zero, J2.mk.injEq, Cx.mk.injEq]
+  refine ⟨⟨?_, ?_⟩, ⟨?_, ?_⟩, ⟨?_, ?_⟩, ⟨?_, ?_⟩⟩ <;> ring
+
+/-- **rotations compose**: turning an element by `a` and then by `b` is turning it by `a + b`
+(for every 2×2 Jones block) -/
+theorem rotated_rotated (j : J2 (Cx ℝ)) (a b : ℝ) : rotated (rotated j a) b = rotated j (a + b) := by
+  obtain ⟨⟨a1, a2⟩, ⟨b1, b2⟩, ⟨c1, c2⟩, ⟨d1, d2⟩⟩ := j
+  unfold rotated rot jmul Cx.add Cx.mul
+  num_real
+  simp only [Real.cos_neg, Real.sin_neg, Real.cos_add, Real.sin_add, J2.mk.injEq, Cx.mk.injEq]
+  refine ⟨⟨?_, ?_⟩, ⟨?_, ?_⟩, ⟨?_, ?_⟩, ⟨?_, ?_⟩⟩ <;> ring
+
+/-- **rotation law of the retarder, relative form**: the element at `a + b` is the element at `a`
+turned by `b`; quarter- and half-wave plates inherit the law (they are the retarder with `d = π/2, π`) -/
+theorem retarder_rotation_law (d a b : ℝ) :
+    retarder d (a + b) = rotated (retarder d a) b ∧
+    quarterWave (a + b) = rotated (quarterWave a) b ∧ halfWave (a + b) = rotated (halfWave a) b ∧
+    quarterWave b = rotated (quarterWave 0) b ∧ halfWave b = rotated (halfWave 0) b := by
+  have key : ∀ d a b : ℝ, retarder d (a + b) = rotated (retarder d a) b := by
+    intro d a b
+    rw [retarder_rotation_covariant d (a + b), retarder_rotation_covariant d a, rotated_rotated]
+  exact ⟨key d a b, key _ a b, key _ a b, retarder_rotation_covariant _ b, retarder_rotation_covariant _ b⟩
+
+/-- **linear polarizers obey the rotation law**: the V, +45° and −45° (`L135`) polarizers of the code are
+the H polarizer turned by 90°, +45°, −45° (and by 135°) -/
+theorem linear_polarizers_are_rotations :
+    (polarizerV : J2 (Cx ℝ)) = rotated polarizerH (Real.pi / 2) ∧
+    (polarizerL45 : J2 (Cx ℝ)) = rotated polarizerH (Real.pi / 4) ∧
+    (polarizerL135 : J2 (Cx ℝ)) = rotated polarizerH (-(Real.pi / 4)) ∧
+    (polarizerL135 : J2 (Cx ℝ)) = rotated polarizerH (3 * Real.pi / 4) := by
+  have h34c : Real.cos (3 * Real.pi / 4) = -(Real.sqrt 2 / 2) := by
+    rw [show 3 * Real.pi / 4 = Real.pi - Real.pi / 4 by ring, Real.cos_pi_sub, Real.cos_pi_div_four]
+  have h34s : Real.sin (3 * Real.pi / 4) = Real.sqrt 2 / 2 := by
+    rw [show 3 * Real.pi / 4 = Real.pi - Real.pi / 4 by ring, Real.sin_pi_sub, Real.sin_pi_div_four]
+  have hq := sqrt2_half_sq
+  unfold polarizerH polarizerV polarizerL45 polarizerL135 rotated rot jmul Cx.ofReal Cx.zero Cx.add Cx.mul
+  rw [half_eq]
+  num_real
+  simp only [Real.cos_neg, Real.sin_neg, Real.cos_pi_div_two, Real.sin_pi_div_two, Real.cos_pi_div_four,
+    Real.sin_pi_div_four, h34c, h34s, J2.mk.injEq, Cx.mk.injEq]
+  refine ⟨⟨⟨?_, ?_⟩, ⟨?_, ?_⟩, ⟨?_, ?_⟩, ⟨?_, ?_⟩⟩, ⟨⟨?_, ?_⟩, ⟨?_, ?_⟩, ⟨?_, ?_⟩, ⟨?_, ?_⟩⟩,
+    ⟨⟨?_, ?_⟩, ⟨?_, ?_⟩, ⟨?_, ?_⟩, ⟨?_, ?_⟩⟩, ⟨⟨?_, ?_⟩, ⟨?_, ?_⟩, ⟨?_, ?_⟩, ⟨?_, ?_⟩⟩⟩
+  all_goals first | (ring_nf; done) | linear_combination hq | linear_combination (-1 : ℝ) * hq
+
+/-- **rotation law for projectors, as maps**: the projector onto a Jones vector `v`, turned by θ, is the
+projector onto the turned vector `R(θ) v` — for every `v` (so every polarizer of the code, turned, is
+the polarizer of the turned state; with `linear_polarizers_are_rotations`: V, ±45° are the H polarizer
+turned by the angle their name states) -/
+theorem rotated_outer (v : Cx ℝ × Cx ℝ) (t : ℝ) : rotated (outer v) t = outer (japply (rot t) v) := by
+  obtain ⟨⟨a, b⟩, ⟨c, d⟩⟩ := v
+  unfold rotated outer japply rot jmul Cx.add Cx.mul Cx.conj
+  num_real
+  simp only [Real.cos_neg, Real.sin_neg, J2.mk.injEq, Cx.mk.injEq]
+  refine ⟨⟨?_, ?_⟩, ⟨?_, ?_⟩, ⟨?_, ?_⟩, ⟨?_, ?_⟩⟩ <;> ring
+
+/-- the **specified** diattenuator obeys the same relative rotation law (the code's does not:
+`diattenuator_rotation_covariant_false`) -/
+theorem diattenuator_spec_rotation_law (tmin tmax a b : ℝ) :
+    diattenuator_spec tmin tmax (a + b) = rotated (diattenuator_spec tmin tmax a) b := by
+  rw [(diattenuator_spec_rotation_covariant tmin tmax (a + b)).1,
+    (diattenuator_spec_rotation_covariant tmin tmax a).1, rotated_rotated]
+
+/-- the seeded sign slip: the off-diagonal entry `-1j·sin(d/2)·sin(2θ)` of `JonesLinearRetarder` with
+the opposite sign -/
+noncomputable def retarder_slip (d t : ℝ) : J2 (Cx ℝ) :=
+  ⟨(retarder d t).a, (retarder d t).b.neg, (retarder d t).c.neg, (retarder d t).d⟩
+
+/-- **the slipped matrix is the element at −θ** (fast axis mirrored), for every retardance and angle -/
+theorem retarder_slip_is_minus_theta (d t : ℝ) : retarder_slip d t = retarder d (-t) := by
+  unfold retarder_slip retarder Cx.neg Cx.add Cx.smul Cx.cis
+  num_real
+  simp only [Real.cos_neg, Real.sin_neg, mul_neg, neg_zero, J2.mk.injEq, Cx.mk.injEq]
+  refine ⟨?_, ?_, ?_, ?_⟩ <;> (try constructor) <;> ring
+
+/-- **the sign of θ is observable exactly off the symmetric cases**: the element at `−θ` (= the slipped
+matrix) equals the element at `+θ` iff `sin(d/2) = 0` (retardance a multiple of 2π: no retarder at all)
+or `sin 2θ = 0` (θ a multiple of 90°) -/
+theorem retarder_sign_observable (d t : ℝ) :
+    retarder_slip d t = retarder d t ↔ Real.sin (d / 2) = 0 ∨ Real.sin (2 * t) = 0 := by
+  unfold retarder_slip retarder Cx.neg
+  num_real
+  simp only [J2.mk.injEq, Cx.mk.injEq, true_and, and_true, neg_zero, and_self]
+  constructor
+  · intro h
+    have : Real.sin (d / 2) * Real.sin (2 * t) = 0 := by linarith
+    exact mul_eq_zero.mp this
+  · intro h
+    have : Real.sin (d / 2) * Real.sin (2 * t) = 0 := mul_eq_zero.mpr h
+    linarith
+
+/-- … in terms of the angles themselves: the two matrices differ iff the retardance is not a multiple
+of 2π and θ is not a multiple of 90° -/
+theorem retarder_sign_observable_angles (d t : ℝ) :
+    retarder d (-t) ≠ retarder d t ↔
+      (¬ ∃ n : ℤ, d = n * (2 * Real.pi)) ∧ (¬ ∃ n : ℤ, t = n * (Real.pi / 2)) := by
+  rw [← retarder_slip_is_minus_theta, Ne, retarder_sign_observable, not_or,
+    Real.sin_eq_zero_iff, Real.sin_eq_zero_iff]
+  constructor
+  · rintro ⟨h1, h2⟩
+    refine ⟨fun ⟨n, hn⟩ => h1 ⟨n, by rw [hn]; ring⟩, fun ⟨n, hn⟩ => h2 ⟨n, by rw [hn]; ring⟩⟩
+  · rintro ⟨h1, h2⟩
+    refine ⟨fun ⟨n, hn⟩ => h1 ⟨n, by linarith⟩, fun ⟨n, hn⟩ => h2 ⟨n, by linarith⟩⟩
+
+example : (¬ ∃ n : ℤ, Real.pi = n * (2 * Real.pi)) := by
+  rintro ⟨n, hn⟩
+  have hp := Real.pi_pos
+  have h1 : (n : ℝ) * 2 = 1 := by
+    have : Real.pi * ((n : ℝ) * 2 - 1) = 0 := by linarith
+    rcases mul_eq_zero.mp this with h | h
+    · exact absurd h hp.ne'
+    · linarith
+  have h2 : (n * 2 : ℤ) = 1 := by exact_mod_cast h1
+  omega
+
+/-- **a half-wave plate at θ turns H into linear polarization at 2θ** (global phase `−i`): the fast axis
+is at `+θ`.  At 22.5° the output is the `'L+45'` state, at −22.5° (the slipped element) the `'L-45'` state. -/
+theorem halfWave_turns_H (t : ℝ) :
+    japply (halfWave t) (createPolarization .H : PolState ℝ).jones
+      = ((⟨0, -1⟩ : Cx ℝ).mul ⟨Real.cos (2 * t), 0⟩, (⟨0, -1⟩ : Cx ℝ).mul ⟨Real.sin (2 * t), 0⟩) := by
+  rw [named_jones.1]
+  have hc := Real.cos_two_mul t
+  have ht := Real.cos_sq_add_sin_sq t
+  unfold japply halfWave retarder Cx.add Cx.mul Cx.smul Cx.cis
+  num_real
+  simp only [neg_div, Real.cos_neg, Real.sin_neg, Real.cos_pi_div_two, Real.sin_pi_div_two,
+    Prod.mk.injEq, Cx.mk.injEq]
+  refine ⟨⟨?_, ?_⟩, ⟨?_, ?_⟩⟩
+  · ring
+  · rw [hc]; linear_combination ht
+  · ring
+  · ring
+
+theorem halfWave_22_5 :
+    japply (halfWave (Real.pi / 8)) (createPolarization .H : PolState ℝ).jones
+      = ((⟨0, -1⟩ : Cx ℝ).mul (createPolarization .Lp45 : PolState ℝ).jones.1,
+         (⟨0, -1⟩ : Cx ℝ).mul (createPolarization .Lp45 : PolState ℝ).jones.2) ∧
+    japply (halfWave (-(Real.pi / 8))) (createPolarization .H : PolState ℝ).jones
+      = ((⟨0, -1⟩ : Cx ℝ).mul (createPolarization .Lm45 : PolState ℝ).jones.1,
+         (⟨0, -1⟩ : Cx ℝ).mul (createPolarization .Lm45 : PolState ℝ).jones.2) := by
+  obtain ⟨-, -, h3, h4, -, -⟩ := named_jones
+  rw [halfWave_turns_H, halfWave_turns_H, h3, h4,
+    show 2 * (Real.pi / 8) = Real.pi / 4 by ring, show 2 * -(Real.pi / 8) = -(Real.pi / 4) by ring,
+    Real.cos_neg, Real.sin_neg, Real.cos_pi_div_four, Real.sin_pi_div_four]
+  exact ⟨rfl, rfl⟩
+
+/-- **a quarter-wave plate with the fast axis at +45° turns H into the state `create_polarization('RCP')`**
+(exactly, no global phase), the one the `JonesPolarizerRCP` passes; at −45° (the slipped element) the
+output is `'LCP'` -/
+theorem quarterWave_45 :
+    japply (quarterWave (Real.pi / 4)) (createPolarization .H : PolState ℝ).jones
+      = (createPolarization .RCP : PolState ℝ).jones ∧
+    japply (quarterWave (-(Real.pi / 4))) (createPolarization .H : PolState ℝ).jones
+      = (createPolarization .LCP : PolState ℝ).jones ∧
+    japply polarizerRCP (japply (quarterWave (Real.pi / 4)) (createPolarization .H : PolState ℝ).jones)
+      = japply (quarterWave (Real.pi / 4)) (createPolarization .H : PolState ℝ).jones ∧
+    japply polarizerLCP (japply (quarterWave (Real.pi / 4)) (createPolarization .H : PolState ℝ).jones)
+      = (Cx.zero, Cx.zero) := by
+  obtain ⟨h1, -, -, -, h5, h6⟩ := named_jones
+  have hq := sqrt2_half_sq
+  have e1 : japply (quarterWave (Real.pi / 4)) (createPolarization .H : PolState ℝ).jones
+      = (createPolarization .RCP : PolState ℝ).jones := by
+    rw [h1, h5]
+    unfold japply quarterWave retarder Cx.add Cx.mul Cx.smul Cx.cis
+    num_real
+    simp only [neg_div, Real.cos_neg, Real.sin_neg, show Real.pi / 2 / 2 = Real.pi / 4 by ring,
+      show 2 * (Real.pi / 4) = Real.pi / 2 by ring, Real.cos_pi_div_four, Real.sin_pi_div_four,
+      Real.sin_pi_div_two, Prod.mk.injEq, Cx.mk.injEq]
+    refine ⟨⟨?_, ?_⟩, ⟨?_, ?_⟩⟩
+    · linear_combination (Real.sqrt 2) * hq
+    · ring
+    · ring
+    · ring
+  have e2 : japply (quarterWave (-(Real.pi / 4))) (createPolarization .H : PolState ℝ).jones
+      = (createPolarization .LCP : PolState ℝ).jones := by
+    rw [h1, h6]
+    unfold japply quarterWave retarder Cx.add Cx.mul Cx.smul Cx.cis
+    num_real
+    simp only [neg_div, Real.cos_neg, Real.sin_neg, show Real.pi / 2 / 2 = Real.pi / 4 by ring,
+      show 2 * -(Real.pi / 4) = -(Real.pi / 2) by ring, Real.cos_pi_div_four, Real.sin_pi_div_four,
+      Real.sin_pi_div_two, Prod.mk.injEq, Cx.mk.injEq]
+    refine ⟨⟨?_, ?_⟩, ⟨?_, ?_⟩⟩
+    · linear_combination (Real.sqrt 2) * hq
+    · ring
+    · ring
+    · ring
+  obtain ⟨-, -, -, -, p5, p6⟩ := polarizer_pass_block
+  refine ⟨e1, e2, ?_, ?_⟩
+  · rw [e1]; exact p5.1
+  · rw [e1]
+    apply p6.2
+    rw [h5, h6]
+    unfold Cx.mul Cx.conj Cx.add Cx.zero
+    num_real
+    simp only [Cx.mk.injEq]
+    constructor
+    · linear_combination (0 : ℝ) * hq
+    · ring
+
+/-! ### (b) Fresnel coefficients depend on the RELATIVE index only -/
+
+/-- **only the ratio n₂/n₁ enters**: scaling both indices by a common factor changes no coefficient
+(so a glass–glass interface `1.5 → 3` behaves as `1 → 2`; the seeded slip `sin θt = sin θ / n₂`
+breaks this) -/
+theorem fresnel_relative_index (n1 n2 c θ : ℝ) (hc : c ≠ 0) (refl : Bool) :
+    fresnel (c * n1) (c * n2) θ refl = fresnel n1 n2 θ refl := by
+  have e : c * n2 / (c * n1) = n2 / n1 := mul_div_mul_left n2 n1 hc
+  unfold fresnel fresnelRs fresnelRp fresnelTs fresnelTp fresnelRoot
+  num_real
+  simp only [e]
+
+/-- **equal indices reflect nothing**, whatever their common value: `r_s = r_p = 0`, `t_s = t_p = 1`
+for `n₁ = n₂ = n ≠ 0` at every angle with `0 < cos θ` -/
+theorem fresnel_equal_indices (n θ : ℝ) (hn : n ≠ 0) (hc : 0 < Real.cos θ) :
+    fresnel n n θ true = ⟨Cx.zero, Cx.zero, ⟨-1, 0⟩⟩ ∧ fresnel n n θ false = ⟨Cx.one, Cx.one, ⟨1, 0⟩⟩ := by
+  have h1 : n / n = 1 := div_self hn
+  have hr : fresnelRoot n n θ = ⟨Real.cos θ, 0⟩ := by
+    rw [fresnelRoot_real n n θ (by rw [h1]; nlinarith [Real.sin_sq_add_cos_sq θ, sq_nonneg (Real.cos θ)]), h1]
+    have : (1:ℝ) ^ 2 - Real.sin θ ^ 2 = Real.cos θ ^ 2 := by
+      linear_combination (-1 : ℝ) * Real.sin_sq_add_cos_sq θ
+    rw [this, Real.sqrt_sq hc.le]
+  have h2 : Real.cos θ + Real.cos θ ≠ 0 := by positivity
+  simp only [fresnel, if_true, Bool.false_eq_true, if_false, fresnelRs_real _ _ _ _ hr,
+    fresnelRp_real _ _ _ _ hr, fresnelTs_real _ _ _ _ hr, fresnelTp_real _ _ _ _ hr, h1, Cx.neg,
+    Cx.zero, Cx.one, Cx.ofReal]
+  num_real
+  simp only [FresnelJ.mk.injEq, Cx.mk.injEq, one_pow, one_mul, mul_one, sub_self, zero_div, neg_zero,
+    and_true, true_and]
+  refine ⟨?_, ?_⟩ <;> field_simp <;> ring
+
+example : ∃ n θ : ℝ, n ≠ 0 ∧ n ≠ 1 ∧ 0 < Real.cos θ ∧ Real.sin θ ≠ 0 :=
+  ⟨3 / 2, Real.pi / 6, by norm_num, by norm_num, by rw [Real.cos_pi_div_six]; positivity,
+    by rw [Real.sin_pi_div_six]; norm_num⟩
+
+/-- the seeded slip (absolute `n₂` where the relative index belongs, i.e. `JonesFresnel` evaluated as if
+`n₁ = 1`) is visible on an index-matched interface: `2 → 2` at normal incidence it reflects
+`r_s = −1/3` where the code reflects nothing -/
+theorem fresnel_absolute_index_slip_visible :
+    (fresnel (1:ℝ) 2 0 true).s = ⟨-(1 / 3), 0⟩ ∧ (fresnel (2:ℝ) 2 0 true).s = Cx.zero := by
+  refine ⟨?_, by rw [(fresnel_equal_indices 2 0 (by norm_num) (by simp)).1]⟩
+  have hr : fresnelRoot (1:ℝ) 2 0 = ⟨2, 0⟩ := by
+    rw [fresnelRoot_real 1 2 0 (by simp)]
+    have : ((2:ℝ) / 1) ^ 2 - Real.sin 0 ^ 2 = 2 ^ 2 := by simp
+    rw [this, Real.sqrt_sq (by norm_num)]
+  simp only [fresnel, if_true, fresnelRs_real _ _ _ _ hr, Real.cos_zero]
+  norm_num
+
+/-- **the coefficients are real below the critical angle** (all four, any positive indices) -/
+theorem fresnel_real_below_critical (n1 n2 θ : ℝ) (hcrit : Real.sin θ ^ 2 ≤ (n2 / n1) ^ 2) :
+    (fresnel n1 n2 θ true).s.im = 0 ∧ (fresnel n1 n2 θ true).p.im = 0 ∧
+    (fresnel n1 n2 θ false).s.im = 0 ∧ (fresnel n1 n2 θ false).p.im = 0 := by
+  have hr := fresnelRoot_real n1 n2 θ hcrit
+  simp only [fresnel, if_true, Bool.false_eq_true, if_false, fresnelRs_real _ _ _ _ hr,
+    fresnelRp_real _ _ _ _ hr, fresnelTs_real _ _ _ _ hr, fresnelTp_real _ _ _ _ hr, Cx.neg]
+  num_real
+  simp
+
+/-- non-vacuity with `n₁ ≠ 1` (glass → denser glass, 30°): the hypotheses of
+`fresnel_energy_below_critical`, `fresnel_real_below_critical` hold, and by `fresnel_relative_index`
+the coefficients are those of `1 → 2` -/
+example : 0 < (3 / 2 : ℝ) ∧ 0 < (3 : ℝ) ∧ 0 < Real.cos (Real.pi / 6) ∧
+    Real.sin (Real.pi / 6) ^ 2 < ((3 : ℝ) / (3 / 2)) ^ 2 ∧
+    ∀ r, fresnel (3 / 2 * 1 : ℝ) (3 / 2 * 2) (Real.pi / 6) r = fresnel 1 2 (Real.pi / 6) r := by
+  rw [Real.cos_pi_div_six, Real.sin_pi_div_six]
+  exact ⟨by norm_num, by norm_num, by positivity, by norm_num,
+    fun r => fresnel_relative_index 1 2 (3 / 2) _ (by norm_num) r⟩
+
+/-- **sign of r_p on either side of Brewster's angle**: below the critical angle, for `n = n₂/n₁ ≠ 1`,
+the code's `r_p` has the sign of `(n − 1)(n cos θ − sin θ)`: for `n > 1` positive below Brewster's angle
+and negative above it (a sign slip in `p` would reverse this) -/
+theorem rp_sign (n1 n2 θ : ℝ) (h1 : 0 < n1) (h2 : 0 < n2) (hc : 0 < Real.cos θ) (hs : 0 ≤ Real.sin θ)
+    (hcrit : Real.sin θ ^ 2 < (n2 / n1) ^ 2) :
+    (0 < (fresnelRp n1 n2 θ).re ↔ 0 < (n2 / n1 - 1) * (n2 / n1 * Real.cos θ - Real.sin θ)) ∧
+    ((fresnelRp n1 n2 θ).re < 0 ↔ (n2 / n1 - 1) * (n2 / n1 * Real.cos θ - Real.sin θ) < 0) := by
+  have hr := fresnelRoot_real n1 n2 θ hcrit.le
+  rw [fresnelRp_real _ _ _ _ hr]
+  have hn : 0 < n2 / n1 := by positivity
+  set n := n2 / n1 with hnd
+  set c := Real.cos θ
+  set s := Real.sin θ
+  have hp : s ^ 2 + c ^ 2 = 1 := Real.sin_sq_add_cos_sq θ
+  have hrad : 0 < n ^ 2 - s ^ 2 := by linarith
+  set ρ := Real.sqrt (n ^ 2 - s ^ 2) with hρd
+  have hρ : 0 < ρ := Real.sqrt_pos.mpr hrad
+  have hρ2 : ρ ^ 2 = n ^ 2 - s ^ 2 := Real.sq_sqrt hrad.le
+  have hden : 0 < n ^ 2 * c + ρ := by positivity
+  -- (n²c − ρ)(n²c + ρ) = (n−1)(nc−s) · (n+1)(nc+s)
+  have key : (n ^ 2 * c - ρ) * (n ^ 2 * c + ρ) = ((n - 1) * (n * c - s)) * ((n + 1) * (n * c + s)) := by
+    linear_combination (-1 : ℝ) * hρ2 + n ^ 2 * hp
+  have hpos : 0 < (n + 1) * (n * c + s) := by positivity
+  show (0 < (n ^ 2 * c - ρ) / (n ^ 2 * c + ρ) ↔ _) ∧ ((n ^ 2 * c - ρ) / (n ^ 2 * c + ρ) < 0 ↔ _)
+  rw [div_pos_iff_of_pos_right hden, div_lt_iff₀ hden, zero_mul]
+  constructor
+  · constructor
+    · intro h
+      have : 0 < ((n - 1) * (n * c - s)) * ((n + 1) * (n * c + s)) := by rw [← key]; positivity
+      exact (mul_pos_iff_of_pos_right hpos).mp this
+    · intro h
+      have : 0 < (n ^ 2 * c - ρ) * (n ^ 2 * c + ρ) := by rw [key]; positivity
+      exact (mul_pos_iff_of_pos_right hden).mp this
+  · constructor
+    · intro h
+      have : ((n - 1) * (n * c - s)) * ((n + 1) * (n * c + s)) < 0 := by
+        rw [← key]; exact mul_neg_of_neg_of_pos h hden
+      by_contra hcon
+      rw [not_lt] at hcon
+      have := mul_nonneg hcon hpos.le
+      linarith
+    · intro h
+      have : (n ^ 2 * c - ρ) * (n ^ 2 * c + ρ) < 0 := by
+        rw [key]; exact mul_neg_of_neg_of_pos h hpos
+      by_contra hcon
+      rw [not_lt] at hcon
+      have := mul_nonneg hcon hden.le
+      linarith
+
+example : ∃ n1 n2 θ : ℝ, 0 < n1 ∧ 0 < n2 ∧ 0 < Real.cos θ ∧ 0 ≤ Real.sin θ ∧
+    Real.sin θ ^ 2 < (n2 / n1) ^ 2 ∧ n2 / n1 ≠ 1 :=
+  ⟨3 / 2, 3, 0, by norm_num, by norm_num, by simp, by simp, by simp, by norm_num⟩
+
+/-! ### (c) `PolarizationState`: normalisation with a vanishing component, launch intensity -/
+
+/-- **normalisation when one component is exactly 0**: `PolarizationState(Ex=a, Ey=0)` stores
+`(a/|a|, 0)` = `(±1, 0)`, and likewise for `Ex = 0` — the division by `mag` is not skipped -/
+theorem polarized_zero_component (a px py : ℝ) (ha : a ≠ 0) :
+    polarized a 0 px py = ⟨true, a / |a|, 0, px, py⟩ ∧ polarized 0 a px py = ⟨true, 0, a / |a|, px, py⟩ ∧
+    (a / |a|) ^ 2 = 1 := by
+  have e1 : Real.sqrt (a * a + 0 * 0) = |a| := by
+    rw [mul_zero, add_zero]; exact Real.sqrt_mul_self_eq_abs a
+  have e2 : Real.sqrt (0 * 0 + a * a) = |a| := by
+    rw [mul_zero, zero_add]; exact Real.sqrt_mul_self_eq_abs a
+  have habs : |a| ≠ 0 := abs_ne_zero.mpr ha
+  refine ⟨?_, ?_, ?_⟩
+  · unfold polarized; num_real; rw [e1, zero_div]
+  · unfold polarized; num_real; rw [e2, zero_div]
+  · rw [div_pow, sq_abs, div_self (pow_ne_zero 2 ha)]
+
+example : ∃ a : ℝ, a ≠ 0 ∧ |a| ≠ 1 := ⟨3, by norm_num, by norm_num⟩
+
+/-- the seeded truthiness slip: `if self.Ex and self.Ey:` instead of `is not None` — a state with a zero
+component is stored as given -/
+noncomputable def polarized_slip (Ex Ey px py : ℝ) : PolState ℝ :=
+  if Ex ≠ 0 ∧ Ey ≠ 0 then polarized Ex Ey px py else ⟨true, Ex, Ey, px, py⟩
+
+/-- the slipped constructor agrees with the code when both components are non-zero and leaves the
+intensity `a²` (instead of 1) when one of them vanishes -/
+theorem polarized_slip_not_normalised (a b px py : ℝ) :
+    (a ≠ 0 → b ≠ 0 → polarized_slip a b px py = polarized a b px py) ∧
+    ((polarized_slip a 0 px py).Ex ^ 2 + (polarized_slip a 0 px py).Ey ^ 2 = a ^ 2) ∧
+    (a ≠ 0 → (polarized a 0 px py).Ex ^ 2 + (polarized a 0 px py).Ey ^ 2 = 1) := by
+  refine ⟨fun ha hb => ?_, ?_, fun ha => polarized_unit a 0 px py (Or.inl ha)⟩
+  · unfold polarized_slip; rw [if_pos ⟨ha, hb⟩]
+  · unfold polarized_slip; rw [if_neg (fun h => h.2 rfl)]; ring
+
+/-- **the launched state has intensity 1 for every valid input**: for all amplitudes `(Ex, Ey) ≠ (0, 0)`
+(one of them may be exactly 0), all phases, and every unit initial direction not along x̂, the 3-D field
+`_get_3d_electric_field` builds has `Σ|E|² = 1`, and `update_intensity` before any surface returns 1 -/
+theorem launch_intensity_one (a b px py i0 : ℝ) (hab : a ≠ 0 ∨ b ≠ 0) (k : V3 ℝ) (hk : dot k k = 1)
+    (hx : k.y ≠ 0 ∨ k.z ≠ 0) :
+    sumAbsSq (field3d (polarized a b px py) k) = 1 ∧
+    updateIntensity (tracePol []) (polarized a b px py) k i0 = 1 := by
+  refine ⟨?_, uncoated_preserves_intensity [] (by simp) k hk hx a b px py i0 hab⟩
+  rw [(field3d_spec _ k hk hx).1, polarized_unit a b px py hab]
+
+example : ∃ (a b : ℝ) (k : V3 ℝ), (a ≠ 0 ∨ b ≠ 0) ∧ b = 0 ∧ dot k k = 1 ∧ (k.y ≠ 0 ∨ k.z ≠ 0) :=
+  ⟨3, 0, ⟨0, 3 / 5, 4 / 5⟩, Or.inl (by norm_num), rfl, by unfold dot; num_real; norm_num,
+    Or.inl (by norm_num)⟩
+
+/-- … whereas a state stored without normalisation (the slip, `Ex = a`, `Ey = 0`) is launched with
+intensity `a²` -/
+theorem launch_intensity_slip (a px py : ℝ) (k : V3 ℝ) (hk : dot k k = 1) (hx : k.y ≠ 0 ∨ k.z ≠ 0) :
+    sumAbsSq (field3d (polarized_slip a 0 px py) k) = a ^ 2 := by
+  rw [(field3d_spec _ k hk hx).1]
+  exact (polarized_slip_not_normalised a 0 px py).2.1
+
+/-! ### (d) unpolarized light with attenuation on the way -/
+
+/-- `update_intensity` for unpolarized light is linear in the launch intensity `_i0` it is given -/
+theorem unpolarized_linear_in_i0 (P : PMat ℝ) (k : V3 ℝ) (a i0 : ℝ) :
+    updateIntensity P unpolarized k (a * i0) = a * updateIntensity P unpolarized k i0 := by
+  have hu : (unpolarized : PolState ℝ).isPol = false := rfl
+  unfold updateIntensity
+  rw [hu]
+  simp only [Bool.false_eq_true, if_false]
+  num_real
+  ring
+
+/-- **unpolarized = launch intensity × mean of any two orthogonal unit states**, for every polarization
+matrix (whatever coatings attenuated the field on the way), every ray, every ORIGINAL launch intensity
+`i0` (`_i0 = intensity.copy()`), every orthonormal pair of input states -/
+theorem unpolarized_is_mean_scaled (P : PMat ℝ) (k : V3 ℝ) (st1 st2 : PolState ℝ)
+    (h : OrthonormalStates st1 st2) (i0 : ℝ) :
+    updateIntensity P unpolarized k i0 = i0 * ((polIntensity P st1 k + polIntensity P st2 k) / 2) := by
+  have := unpolarized_linear_in_i0 P k i0 1
+  rw [mul_one] at this
+  rw [this, unpolarized_is_mean P k st1 st2 h]
+
+/-- the seeded aliasing slip (`_i0 = intensity`, so that `_i0` follows the live array which apertures,
+absorption and earlier `update_intensity` calls have scaled by `a`) returns `a` times the specified
+value: it is wrong exactly when `a ≠ 1` and the specified value is not 0 -/
+theorem unpolarized_alias_slip_differs (P : PMat ℝ) (k : V3 ℝ) (a i0 : ℝ) :
+    updateIntensity P unpolarized k (a * i0) = updateIntensity P unpolarized k i0 ↔
+      a = 1 ∨ updateIntensity P unpolarized k i0 = 0 := by
+  rw [unpolarized_linear_in_i0]
+  constructor
+  · intro h
+    have : (a - 1) * updateIntensity P unpolarized k i0 = 0 := by linear_combination h
+    rcases mul_eq_zero.mp this with h | h
+    · exact Or.inl (by linarith)
+    · exact Or.inr h
+  · rintro (h | h)
+    · rw [h, one_mul]
+    · rw [h, mul_zero]
+
+/-- non-vacuity of the slip: through no surface at all, launch intensity 1, attenuation `a = 1/2`, the
+specified unpolarized intensity is 1 and the slipped one 1/2 -/
+theorem unpolarized_alias_slip_example (k : V3 ℝ) (hk : dot k k = 1) (hx : k.y ≠ 0 ∨ k.z ≠ 0) :
+    updateIntensity (tracePol []) unpolarized k 1 = 1 ∧
+    updateIntensity (tracePol []) unpolarized k (1 / 2 * 1) = 1 / 2 := by
+  have h1 : updateIntensity (tracePol []) unpolarized k (1:ℝ) = 1 := by
+    rw [unpolarized_is_mean _ k _ _ xy_states]
+    have e1 := uncoated_preserves_intensity [] (by simp) k hk hx 1 0 0 0 1 (Or.inl one_ne_zero)
+    have e2 := uncoated_preserves_intensity [] (by simp) k hk hx 0 1 0 0 1 (Or.inr one_ne_zero)
+    have hp1 : (polarized (1:ℝ) 0 0 0).isPol = true := rfl
+    have hp2 : (polarized (0:ℝ) 1 0 0).isPol = true := rfl
+    unfold updateIntensity at e1 e2
+    rw [if_pos hp1] at e1
+    rw [if_pos hp2] at e2
+    rw [e1, e2]; norm_num
+  exact ⟨h1, by rw [unpolarized_linear_in_i0, h1]; norm_num⟩
+
 
 end C17
